@@ -528,11 +528,11 @@ Proof.
   - reflexivity.
   - discriminate He.
   - discriminate He.
-  - unfold enc_digests in He. simpl in He. rewrite <- !app_assoc in He.
+  - unfold enc_digests in He. cbn [flat_map] in He. rewrite <- !app_assoc in He.
     apply le64f_app_inj in He as [Hk He]. apply le64f_app_inj in He as [Hv He].
-    apply Forall_cons in H1 as [[? ?] H1]. apply Forall_cons in H2 as [[? ?] H2].
+    apply Forall_cons in H1 as [[Rk1 Rv1] H1]. apply Forall_cons in H2 as [[Rk2 Rv2] H2].
     apply le64f_inj in Hk; [|done..]. apply le64f_inj in Hv; [|done..].
-    simpl. unfold kv_of at 1 3. rewrite Hk, Hv. f_equal. by apply IH.
+    cbn [map]. unfold kv_of at 1 3. rewrite Hk, Hv. f_equal. by apply IH.
 Qed.
 
 Section inj.
